@@ -25,6 +25,7 @@ type c03Case struct {
 	Drop   []int         `json:"drop,omitempty"`
 	Extra  []string      `json:"extra,omitempty"`
 	PreOps []string      `json:"preOps,omitempty"` // earlier operations on the same node tree (From-Root side only; Markdown has no state)
+	WFail  int           `json:"wFail,omitempty"`  // >0: the writer of both sides fails at write index WFail-1 (text and encoded output)
 }
 
 var c03Ops = []string{"text", "json", "yaml", "toml", "walk", "walkiter", "mkdir", "verify"}
@@ -75,6 +76,13 @@ func c03Cases(c c03Case) (root, md ops.Case) {
 	if c.Op == "walkiter" {
 		root.Op = "walkiter"
 	}
+	if c.WFail > 0 && (c.Op == "text" || c.Op == "json" || c.Op == "yaml" || c.Op == "toml") {
+		root.Faults.WriterFailAt = c.WFail - 1
+		md.Faults.WriterFailAt = c.WFail - 1
+		if c.Op == "text" {
+			md.Opts.NoIter = true // one write per row on both sides
+		}
+	}
 	return
 }
 
@@ -120,6 +128,9 @@ func c03Check(c c03Case) string {
 	}
 	if c.Op == "verify" && sortedLines(rr.Err.Text) != sortedLines(mr.Err.Text) {
 		return fmt.Sprintf("%sverify reports differ:\nFrom-Root: %q\nFrom-Markdown: %q", head, rr.Err.Text, mr.Err.Text)
+	}
+	if c.WFail > 0 && rr.WriteFailed != mr.WriteFailed {
+		return "" // the two sides split the output into writes differently at this index; nothing to compare
 	}
 	if string(rr.Out) != string(mr.Out) {
 		return fmt.Sprintf("%soutput differs: %s\nFrom-Root:\n%s\nFrom-Markdown:\n%s", head, firstDiff(string(rr.Out), string(mr.Out)), rr.Out, mr.Out)
@@ -175,7 +186,10 @@ func c03Record(col *collector, c c03Case) {
 	if len(c.PreOps) > 0 {
 		cl = append(cl, "after-earlier-calls-on-the-same-tree")
 	}
-	col.eval(n >= 4 && (repeats > 0 || nonPre), hash64(c.Root, fmt.Sprint(c.Prog, c.Op, c.Alias, c.Branch, c.Exts, c.Strict, c.Drop, c.Extra, c.PreOps)), cl...)
+	if c.WFail > 0 {
+		cl = append(cl, "failing-writer-on-both-sides")
+	}
+	col.eval(n >= 4 && (repeats > 0 || nonPre), hash64(c.Root, fmt.Sprint(c.Prog, c.Op, c.Alias, c.Branch, c.Exts, c.Strict, c.Drop, c.Extra, c.PreOps, c.WFail)), cl...)
 	col.sample(func() any { return map[string]any{"root": c.Root, "prog": c.Prog, "op": c.Op, "tree": tree.String()} })
 }
 
@@ -256,6 +270,9 @@ func c03Gen() *rapid.Generator[c03Case] {
 		c.Prog = genProgram(t, tree, rapid.Bool().Draw(t, "shuffle"), rapid.Bool().Draw(t, "repeats"))
 		if rapid.IntRange(0, 2).Draw(t, "withPreOps") == 0 {
 			c.PreOps = rapid.SliceOfN(rapid.SampledFrom(preOpPool), 1, 3).Draw(t, "preOps")
+		}
+		if rapid.IntRange(0, 4).Draw(t, "writerFault") == 0 {
+			c.WFail = 1 + rapid.IntRange(0, tree.Count()).Draw(t, "wFail")
 		}
 		switch op {
 		case "text", "walk", "walkiter":
